@@ -106,6 +106,9 @@ def call(ex, f, args, kw, st, node=None):
         raise OutsideSubset('str(%r)' % (v,))
     if f is int:
         return py_int(ex, args[0], st)
+    if f in (frozenset, set) and len(args) == 1 and isinstance(args[0], (tuple, frozenset)) \
+            and all(isinstance(x, (str, int, type(None))) and not isinstance(x, Sym) for x in args[0]):
+        return [(st, frozenset(args[0]))]
     if f is tuple:
         v = args[0] if args else ()
         if isinstance(v, tuple):
@@ -498,6 +501,14 @@ def starts_ws(z):
 def list_method(ex, l, name, args, kw, st):
     items = st.lists[l.lid]
     if name == 'append':
+        aa = getattr(getattr(ex, 'contract', None), 'append_asserts', None)
+        if aa:
+            # obligations the caller's contract attaches to `<name>.append(x)` (evaluated in the caller's frame, `item`
+            # = the appended value)
+            for n, v in list(st.env.items()):
+                if isinstance(v, LRef) and v.lid == l.lid:
+                    for j, sp in enumerate(aa.get(n, [])):
+                        ex.goal('%s/append[%s]#%d' % (ex.fn, n, j), st, ex.spec(sp, st, {'item': args[0]}), {'assert': sp})
         st.lists[l.lid] = items + (('el', args[0]),)
         st.ghost['__ver__%d' % l.lid] = st.ghost.get('__ver__%d' % l.lid, 0) + 1
         if hasattr(ex, 'is_tokens_list') and ex.is_tokens_list(st, l):
@@ -670,9 +681,37 @@ def call_repo(ex, q, self_val, args, kw, st):
     if node is None:
         raise OutsideSubset('no source for %s' % q)
     if c is None and q not in ex.reg.inline_ok:
-        raise OutsideSubset('call of %s which has no contract' % q)
+        # a helper without a sidecar contract: its body is executed in place (that IS its strongest contract) when it
+        # is loop-free and not being inlined already; anything else needs a contract
+        has_loop = any(isinstance(n, (ast.For, ast.While, ast.AsyncFor)) for n in ast.walk(node))
+        stack = getattr(ex, '_auto_inline_stack', [])
+        if has_loop or q in stack or len(stack) > 6:
+            raise OutsideSubset('call of %s which has no contract' % q)
+        lib('helper without a contract executed in place: ' + q)
+        ex._auto_inline_stack = stack + [q]
+        try:
+            return call_repo_inline(ex, q, node, self_val, args, kw, st)
+        finally:
+            ex._auto_inline_stack = stack
     modname = q
     # find the module globals of the callee
+    mod = None
+    parts = q.split('.')
+    for i in range(len(parts), 0, -1):
+        m = sys.modules.get('.'.join(parts[:i]))
+        if m is not None:
+            mod = m
+            break
+    f = Func(q, node=node, closure=None, self_val=self_val)
+    saved_genv = ex.genv
+    ex.genv = vars(mod)
+    try:
+        return call_inline(ex, f, args, kw, st, qual=q)
+    finally:
+        ex.genv = saved_genv
+
+
+def call_repo_inline(ex, q, node, self_val, args, kw, st):
     mod = None
     parts = q.split('.')
     for i in range(len(parts), 0, -1):
